@@ -8,6 +8,8 @@ package main
 import (
 	"encoding/json"
 	"fmt"
+	"github.com/kstenerud/go-concise-encoding/configuration"
+	"github.com/kstenerud/go-concise-encoding/rules"
 	"strings"
 	"time"
 )
@@ -21,12 +23,24 @@ func genCorpus(c *Check, maxLen int, label string) []corpusDoc {
 	return genCorpusFrom(c, "AlphaDoc", "FilterDoc", "<<EvBD, EvVer(0)>>", maxLen, label)
 }
 
+// genCorpusWalks: long random complete documents (TLC -simulate over the same generator: a
+// walk continues at random while it can still be completed within maxLen events).
+func genCorpusWalks(c *Check, alphabet, filter, prefix string, maxLen, num int, label string) []corpusDoc {
+	return genCorpusMode(c, alphabet, filter, prefix, maxLen, label, fmt.Sprintf("num=%d", num))
+}
+
 func genCorpusFrom(c *Check, alphabet, filter, prefix string, maxLen int, label string) []corpusDoc {
+	return genCorpusMode(c, alphabet, filter, prefix, maxLen, label, "")
+}
+
+func genCorpusMode(c *Check, alphabet, filter, prefix string, maxLen int, label string, simulate string) []corpusDoc {
 	params := paramsModule(nil, "LimV == "+defaultLim.TLA()+"\nPrefixV == "+prefix+"\nReasonsV == {}")
-	cfgText := fmt.Sprintf("INIT Init\nNEXT Next\nINVARIANT Emit\nINVARIANT Inv\nCHECK_DEADLOCK FALSE\nCONSTANTS\n Alphabet <- %s\n MaxLen = %d\n Lim <- LimV\n Reasons <- ReasonsV\n Prefix <- PrefixV\n Filter <- %s\n OnlyComplete = TRUE\n", alphabet, maxLen, filter)
+	cfgText := fmt.Sprintf("INIT Init\nNEXT Next\nINVARIANT Emit\nINVARIANT Inv\nCHECK_DEADLOCK FALSE\nCONSTANTS\n Alphabet <- %s\n MaxLen = %d\n Lim <- LimV\n Reasons <- ReasonsV\n Prefix <- PrefixV\n Filter <- %s\n OnlyComplete = %s\n", alphabet, maxLen, filter, map[bool]string{true: "TRUE", false: "FALSE"}[simulate == ""])
 	var table *genTable
 	var docs []corpusDoc
+	seen := map[string]bool{}
 	res, err := RunTLC(TLCRun{Module: "RulesGen", Cfg: cfgText, Extra: map[string]string{"VerifParams.tla": params}, Workers: 8, Timeout: 30 * time.Minute,
+		Simulate: simulate, Depth: maxLen + 3, Seed: c.Seed,
 		OnLine: func(p string) {
 			if table == nil {
 				var t genTable
@@ -40,8 +54,31 @@ func genCorpusFrom(c *Check, alphabet, filter, prefix string, maxLen int, label 
 			if err := json.Unmarshal([]byte(p), &lf); err != nil {
 				machineryFail("corpus: bad leaf %q", p)
 			}
+			if lf.St == "ok" && simulate != "" {
+				// a walk that ran out of length before the document was complete: close it
+				var evs []AEv
+				evs = append(evs, table.Prefix...)
+				for _, i := range lf.H {
+					evs = append(evs, table.Alphabet[i-1])
+				}
+				if full, ok := completeDocument(evs); ok {
+					k := evsString(full)
+					if !seen[k] {
+						seen[k] = true
+						docs = append(docs, corpusDoc{H: lf.H, Evs: full})
+					}
+				}
+				return
+			}
 			if lf.St != "accepted" {
 				return
+			}
+			if simulate != "" {
+				k := fmt.Sprint(lf.H)
+				if seen[k] {
+					return
+				}
+				seen[k] = true
 			}
 			d := corpusDoc{H: lf.H}
 			d.Evs = append(d.Evs, table.Prefix...)
@@ -236,5 +273,52 @@ func expandChunks(e AEv, s *sampler, o concOpts) []AEv {
 // multi-line comments nest with balanced delimiters
 var commentSingle = []string{" a comment", "", "x", " é€😀 ", " // nested // ", " /* not a block */", "\ttab", " trailing ", " \"quoted\" \\n "}
 var commentMulti = []string{" a comment ", "", "x", " line1\nline2 ", " /* nested */ ", " é€😀 ", " //x ", "\n    indented\n", " * star * ", " \"q\" "}
+
+// completeDocument closes an incomplete abstract document: candidate closing events are tried
+// against the real validator (placeholders concretised with a fixed seed) until the
+// document is accepted.  Only used to build inputs.
+func completeDocument(evs []AEv) ([]AEv, bool) {
+	accepts := func(doc []AEv) (ok bool, complete bool) {
+		conc := concretise(doc, newSampler(1), concOpts{})
+		r := rules.NewRules(&Recorder{}, configuration.New())
+		for _, e := range conc {
+			if ok, _ := tryInvoke(r, e); !ok {
+				return false, false
+			}
+		}
+		ed := newEv("OnEndDocument")
+		okEnd, _ := tryInvoke(r, ed)
+		return true, okEnd
+	}
+	mk := func(m, dt, k string) AEv { e := newEv(m); e.DT, e.K = dt, k; return e }
+	end := newEv("OnEndContainer")
+	null := newEv("OnNull")
+	null.DT = "null"
+	markA, refA := newEv("OnMarker"), newEv("OnReferenceLocal")
+	markA.ID, refA.ID = "a", "a"
+	doc := append([]AEv{}, evs...)
+	for step := 0; step < 60; step++ {
+		ok, complete := accepts(doc)
+		if !ok {
+			return nil, false
+		}
+		if complete {
+			return append(doc, newEv("OnEndDocument")), true
+		}
+		progressed := false
+		for _, cand := range []AEv{end, mk("OnInt", "int", fmt.Sprintf("@int#%d", 40+step)), null, markA} {
+			try := append(append([]AEv{}, doc...), cand)
+			if ok, _ := accepts(try); ok {
+				doc = try
+				progressed = true
+				break
+			}
+		}
+		if !progressed {
+			return nil, false
+		}
+	}
+	return nil, false
+}
 
 func utf8Text(at string) bool { return at == "string" || at == "rid" || at == "rref" || at == "ctxt" }
